@@ -31,6 +31,19 @@ static std::string gate_case(const J &c) {
     LweSample *ref = new_gate_bootstrapping_ciphertext(K.params), *out = new_gate_bootstrapping_ciphertext(K.params);
     for (int i = 0; i < 3; i++) bootsSymEncrypt(in + i, bits[i], K.sk);
     const int ar = GATES[g].arity;
+    // rounding ties: shift mask coefficients of input 0 (compensated on the body with the key bit, so phase and noise are unchanged)
+    // so that a+b (even i) or 2(a+b) (odd i, for the doubling gates) lies exactly half-way between two multiples of 1/2N
+    if (int ties = (int)c["ties"].i()) {
+        const int32_t *key = K.sk->lwe_key->key;
+        for (int i = 0; i < n; i++) {
+            if (ties == 2 && i % 3 == 2) continue;
+            uint32_t M = (i & 1) ? (1u << 20) : (1u << 21), T = M >> 1;
+            uint32_t cur = (uint32_t)in[0].a[i] + (uint32_t)in[1].a[i];
+            uint32_t delta = (T - cur) & (M - 1);
+            in[0].a[i] = (int32_t)((uint32_t)in[0].a[i] + delta);
+            in[0].b = (int32_t)((uint32_t)in[0].b + delta * (uint32_t)key[i]);
+        }
+    }
     // effective operands under the aliasing pattern
     if (al == 4 || al == 5 || al == 6) { lwe_copy_raw(in + 1, in, n); bits[1] = bits[0]; }
     if (al == 5 || al == 6) { lwe_copy_raw(in + 2, in, n); bits[2] = bits[0]; }
@@ -88,6 +101,7 @@ static std::string low_case(const J &c) {
         LweSample *res = new_LweSample(ks ? K.Pin : &K.Ptl->extracted_lweparams);
         for (int i = 0; i < n; i++) x->a[i] = r.i32();
         x->b = r.i32(); x->current_variance = 1e-9;
+        if (c["ties"].i()) { for (int i = 0; i < n; i++) if (i % 2 == 0 || c["ties"].i() == 1) x->a[i] = (int32_t)(((uint32_t)x->a[i] & ~((1u << 21) - 1)) | (1u << 20)); x->b = (int32_t)(((uint32_t)x->b & ~((1u << 21) - 1)) | (1u << 20)); } // exact rounding ties of the 2N modulus switch
         lwe_copy_raw(x0, x, n);
         int32_t mu = r.i32();
         switch (f) { case 0: tfhe_bootstrap_FFT(res, K.bkFFT, mu, x); break; case 1: tfhe_bootstrap_woKS_FFT(res, K.bkFFT, mu, x); break; case 2: tfhe_bootstrap(res, K.bk, mu, x); break; default: tfhe_bootstrap_woKS(res, K.bk, mu, x); }
@@ -172,13 +186,13 @@ int main(int argc, char **argv) {
     Harness H(A, "c15");
     H.run_case = run_case;
     H.nontrivial = [](const J &c) { return c["k"].s() == "gate" ? c["alias"].i() != 0 : (c["k"].s() == "extprod" || c["k"].s() == "bootstrap"); };
-    H.classify = [](const J &c) { return c["k"].s() == "gate" ? std::string("gate_") + ALIAS[c["alias"].i()] : c["k"].s() + "_" + std::to_string(c["f"].i()); };
+    H.classify = [](const J &c) { return (c["k"].s() == "gate" ? std::string("gate_") + ALIAS[c["alias"].i()] : c["k"].s() + "_" + std::to_string(c["f"].i())) + (c["ties"].i() ? "_roundingTies" : ""); };
     if (H.mode == "replay") return H.replay(A.s("replay"));
     const uint64_t seed = A.u("seed", 1);
     auto mkgate = [&](int lambda, int g, int row, int al, uint64_t s, int full) {
         J c = J::object();
         c.set("k", "gate").set("lambda", lambda).set("keyseed", seed).set("g", g).set("gate", GATES[g].name).set("alias", al).set("aliasing", ALIAS[al]);
-        c.set("bits", J::arr(std::vector<int>{row & 1, (row >> 1) & 1, (row >> 2) & 1})).set("seed", s).set("fullsnap", full);
+        c.set("bits", J::arr(std::vector<int>{row & 1, (row >> 1) & 1, (row >> 2) & 1})).set("seed", s).set("fullsnap", full).set("ties", (int)(s % 4 == 1 ? 1 : s % 4 == 2 ? 2 : 0));
         return c;
     };
     if (H.mode == "table") { // every gate x every aliasing pattern that applies x two truth-table rows
@@ -206,7 +220,7 @@ int main(int argc, char **argv) {
         int lb = *rng<int>(0, 4);
         cfg.n = *rng<int>(1, 12); cfg.k = *rc::gen::weightedElement<int>({{3, 1}, {1, 2}}); cfg.l = LB[lb][0]; cfg.Bgbit = LB[lb][1]; cfg.t = *rc::gen::element<int>(2, 8); cfg.bb = *rc::gen::element<int>(1, 2);
         cfg.a_in = 1e-9; cfg.a_bk = 1e-9; cfg.seed = seed + (uint64_t)*rng<int>(0, 1);
-        c.set("k", KINDS[which]).set("cfg", cfg.json()).set("f", *rng<int>(0, which == 4 ? 4 : 3)).set("seed", *genSeed()).set("ckind", *rc::gen::element<int>(0, 0, 1, 2, 3, 6));
+        c.set("k", KINDS[which]).set("cfg", cfg.json()).set("f", *rng<int>(0, which == 4 ? 4 : 3)).set("seed", *genSeed()).set("ckind", *rc::gen::element<int>(0, 0, 1, 2, 3, 6)).set("ties", *rc::gen::weightedElement<int>({{3, 0}, {1, 1}, {1, 2}}));
         return c;
     });
     return H.finish();
